@@ -112,21 +112,42 @@ def odt_plus_minus_duration(P):
     return h
 
 
-@lemma({"dd": int, "nn": int, "o": int, "v": int}, params=["hours", "minutes", "seconds", "milliseconds", "ticks", "nanoseconds"], budget=90,
-       bounds="every OffsetDateTime x plus_<unit>(v), |v*unit| <= 10**22 ns: the method adds exactly Duration v*unit through the + operator "
-              "(probe on OffsetDateTime.__add__; the addition itself is odt_plus_minus_duration, the duration factories are C03)")
+@lemma({"dd": int, "nn": int, "o": int, "v": int}, params=["hours", "minutes", "seconds", "milliseconds", "ticks", "nanoseconds"], budget=120,
+       per_path=30,
+       bounds="every OffsetDateTime x plus_<unit>(v), |v * unit| <= 10**22 ns: the result equals (instant, local value, offset, calendar) the "
+              "value of x + Duration.from_<unit>(v), and raises exactly when that does (the addition is odt_plus_minus_duration, the duration "
+              "factories are C03)")
 def odt_plus_unit(P):
     unit = {"hours": 3600 * NS, "minutes": 60 * NS, "seconds": NS, "milliseconds": 10 ** 6, "ticks": 100, "nanoseconds": 1}[P]
     seen = []
-    OffsetDateTime.__add__ = lambda self, dur: (seen.append((self, dur)), self)[1]
-    stubs.STUBS_IN_FORCE.append("probe:OffsetDateTime.__add__ records its operands (this lemma only)")
+    real_add = OffsetDateTime.__add__
+
+    def recording_add(self, dur):
+        r = real_add(self, dur)
+        seen.append((self, dur, r))
+        return r
+    OffsetDateTime.__add__ = recording_add
+    stubs.STUBS_IN_FORCE.append("probe:OffsetDateTime.__add__ records operands and result, then runs the real addition (this lemma only; a "
+                                "shortcut for the comparison, not a requirement on how plus_<unit> is implemented)")
 
     def h(dd, nn, o, v):
         del seen[:]
         x = _odt_local(dd, nn, o)
         assume(-10 ** 22 <= v * unit <= 10 ** 22)
-        r = getattr(x, "plus_" + P)(v)
-        return len(seen) == 1 and seen[0][0] is x and seen[0][1].to_nanoseconds() == v * unit and r is x
+        try:
+            r = getattr(x, "plus_" + P)(v)
+        except (ValueError, OverflowError):
+            r = None
+        if len(seen) == 1 and seen[0][0] is x and r is seen[0][2]:
+            # implemented as x + <duration>: enough that the duration is v * unit (the addition is odt_plus_minus_duration)
+            return seen[0][1].to_nanoseconds() == v * unit
+        # any other implementation: compare with the value of x + Duration.from_<unit>(v)
+        try:
+            want = real_add(x, getattr(Duration, "from_" + P)(v))
+        except (ValueError, OverflowError):
+            return r is None
+        return (r is not None and itot(r.to_instant()) == itot(want.to_instant()) and r.offset.seconds == o and r.calendar is HOST
+                and local_total(r) == local_total(want))
     return h
 
 
@@ -195,3 +216,9 @@ def odt_calendar_retained_real(P):
         a, b = x + dur, x - dur
         return a.calendar is cal and b.calendar is cal and a.offset.seconds == o and b.offset.seconds == o and x.calendar is cal
     return h
+
+
+# ZonedDateTime + Duration over a symbolic zone: shared with C05 (props/zdt.py)
+from props import zdt  # noqa: E402
+
+zdt.declare()
